@@ -107,6 +107,12 @@ impl PoolAllocator {
         self.bucket_alignment
     }
 
+    // distance between two consecutive buckets, the bucket size rounded up to the bucket
+    // alignment so that every bucket starts at an aligned address
+    fn bucket_stride(&self) -> usize {
+        align(self.bucket_size, self.bucket_alignment)
+    }
+
     /// Releases an previously allocated bucket of memory.
     ///
     /// # Safety
@@ -184,7 +190,7 @@ impl PoolAllocator {
         debug_assert!(
             !(position < (self.start.as_ptr() as usize)
                 || position > (self.start.as_ptr() as usize) + self.size
-                || !(position - self.start.as_ptr() as usize).is_multiple_of(self.bucket_size)),
+                || !(position - self.start.as_ptr() as usize).is_multiple_of(self.bucket_stride())),
             "The pointer {ptr:?} is not managed by this allocator."
         );
     }
@@ -193,7 +199,7 @@ impl PoolAllocator {
         self.verify_ptr_is_managed_by_allocator(ptr);
         let position = ptr.as_ptr() as usize;
 
-        ((position - self.start.as_ptr() as usize) / self.bucket_size) as u32
+        ((position - self.start.as_ptr() as usize) / self.bucket_stride()) as u32
     }
 }
 
@@ -217,7 +223,7 @@ impl Allocate<NonNull<u8>> for PoolAllocator {
                     self.start
                         .as_ptr()
                         .cast_mut()
-                        .add(v as usize * self.bucket_size),
+                        .add(v as usize * self.bucket_stride()),
                 )
             }),
             Err(_) => {
